@@ -419,6 +419,11 @@ def m_C20(tier):
             for km in ('str', 'pickle') + (('rawsent', 'strsent', 'md5sent', 'chain', 'rawtyped', 'picklenf') if (tier == 'thorough' or alg in ('lru', 'inf')) else ('strsent',)):
                 # (configuration survival shows at the first round trip: shallow)
                 cfgs.append(C(mod, alg, sizes[0], False, km, 'dict', nargs=2, spellings=1, **({} if km in ('str', 'pickle') else {'depth': 3})))
+            # an ignore specification puts klepto's NULL marker into every key: the entries made before the round trip must
+            # still be found by the copy (raw keys hold the marker itself, serialised keys its pickle / repr)
+            if tier == 'thorough' or alg in ('lru', 'inf', 'no'):
+                for km in ('raw', 'str', 'pickle'):
+                    cfgs.append(C(mod, alg, sizes[0], False, km, 'dict', nargs=2, spellings=1, ignore='y', depth=3))
             # rounding configuration must survive the round trip: float arguments, tol None / 0 / 1, deep or not
             for tol, deep in ((None, False), (None, True), (0, True), (1, False)):
                 if tier == 'thorough' or alg in ('lru', 'inf', 'mru'):
